@@ -176,6 +176,8 @@ func c16Replay(raw json.RawMessage) string {
 type c16Multi struct {
 	A, B  string
 	Limit int
+	// BuiltIn flags of the two sources: the limit applies to every source alike
+	BuiltInA, BuiltInB bool
 }
 
 // c16MultiEval: ParseSchemasWithLimit where the per-source and the in-total readings agree.
@@ -189,7 +191,7 @@ func c16MultiEval(c c16Multi) string {
 	_, errB := parser.ParseSchema(&ast.Source{Input: c.B})
 	var err error
 	if p := kit.Safely(func() {
-		_, err = parser.ParseSchemasWithLimit(c.Limit, &ast.Source{Name: "a", Input: c.A}, &ast.Source{Name: "b", Input: c.B})
+		_, err = parser.ParseSchemasWithLimit(c.Limit, &ast.Source{Name: "a", Input: c.A, BuiltIn: c.BuiltInA}, &ast.Source{Name: "b", Input: c.B, BuiltIn: c.BuiltInB})
 	}); p != nil {
 		return "ParseSchemasWithLimit panicked: " + p.Value
 	}
@@ -399,11 +401,11 @@ func TestC16(t *testing.T) {
 		if lim < 0 {
 			lim = 0
 		}
-		c := c16Multi{A: a, B: b, Limit: lim}
+		c := c16Multi{A: a, B: b, Limit: lim, BuiltInA: rapid.IntRange(0, 2).Draw(rt, "builtinA") == 0, BuiltInB: rapid.IntRange(0, 2).Draw(rt, "builtinB") == 0}
 		r.Begin("multi", func() interface{} { return c })
 		defer r.End()
 		v := c16MultiEval(c)
-		r.Case(true, fmt.Sprintf("%s\x00%s\x00%d", a, b, lim))
+		r.Case(true, fmt.Sprintf("%s\x00%s\x00%d\x00%v%v", a, b, lim, c.BuiltInA, c.BuiltInB))
 		r.Class("multi")
 		if v != "" {
 			r.Failf(rt, "multi", c, "%s", v)
